@@ -21,6 +21,16 @@ def run(res, proofs_ok, proofs_why):
     if cfg is None:
         return
     wipe_part(res, binary)
+    # clause (c) on files: a segment clients could open - whatever the length of the file, a file cut short
+    # behind a valid header included - is taken over in place: the generation goes on from the value in the
+    # file (a wipe would show as a restart from 0 -> 2)
+    from props import C11
+    fbad = C11.file_part(res)
+    res.oblige("clause (c): every file of the corpus that clients can open is taken over in place by a starting daemon", not fbad)
+    if fbad:
+        res.violation({"property": "C04", "kind": "input", "case": fbad[0], "others": [b["file"] for b in fbad[1:5]],
+                       "predicate": "a segment that was valid before the restart is taken over in place, never emptied or re-created",
+                       "how_to_replay": "./check C16 --replay <this file>"})
     ok, log = _shm.current_obligation(cfg, "C04", BODY)
     res.oblige("Current_C04.v: safe_cfg current_cfg = true for the configuration measured from the running code; clauses (a), (b), (c) instantiated with it", ok)
     res.extra["current_cfg_coq"] = _shm.coq_cfg(cfg)
